@@ -22,7 +22,7 @@ def run(ctx):
     lib_tree.transitions(ctx, P)
     funcs = {"tsk_tree_seek", "tsk_tree_seek_index", "tsk_tree_check_node", "tsk_tree_set_tracked_samples"}
     seen = lib_guards.analyse(ctx, P, funcs=funcs)
-    lib_guards.presence(ctx, seen, funcs=funcs)
+    lib_guards.presence(ctx, seen, funcs=funcs, P=P)
     lib_module.parsed_used(ctx, P, only=ms)
     lib_py.unused_params(ctx, py, mods=("trees",), only=ps)
     lib_py.kw_forward(ctx, py, mods=("trees",), only=ps)
